@@ -163,6 +163,74 @@ def check(an, rep, tier):
     _F.check_rank_value(an, rep, 'svd.matrix_skeleton')
     rep.floor('F-rank', 1, 'rank formula of the skeleton helper')
     rep.floor('S-ndim', 1, 'lstsq operand')
+    # --- P-cap: every compression of a block of values is capped by the
+    # CALLER's rank cap (1 for the last core), in every mode -- not by the
+    # rank that an earlier mode happened to find (needs d >= 4 to show: the
+    # cap of mode 2 is the first one that can be a left-over of mode 1)
+    from .. import interp as _interp
+    from ..poly import data_dependent as _dd
+    from .. import specs
+    fsv_ = an.prog.func('svd.svd_incomplete')
+    for d_ in (3, 4):
+        a_ = specs.build_args(specs.variants('svd.svd_incomplete')[1], d_)
+        r0_ = a_['r']
+        # (the block widths as named integers, so that a cap computed from
+        # them or from a found rank is a value, not just "some integer")
+        from ..values import ARR as _ARR, INT as _INT
+        from ..poly import Poly as _Poly
+        many_ = _ARR((_Poly.const(d_),), 'i')
+        many_.items = [_INT(_Poly.sym('many.%d' % j_)) for j_ in range(d_)]
+        a_['idx_many'] = many_
+        I_ = _interp.Interp(an.prog, {'split': dict(specs.DEFAULT_SPLIT),
+                                      'summary': dict(specs.DEFAULT_SUMMARY)})
+        I_.run_function(fsv_, a_)
+        k_ = 0
+        for (q_, args_, _res), meta_ in zip(I_.call_log, I_.call_meta):
+            if q_ not in ('svd.matrix_skeleton', 'svd.matrix_svd') or \
+                    not (meta_.get('caller') or '').startswith('svd.') or \
+                    not isinstance(args_, dict) or 'r' not in args_:
+                continue
+            if (meta_.get('caller') or '') in ('svd.matrix_skeleton',
+                                               'svd.matrix_svd'):
+                continue
+            k_ += 1
+            rv_ = args_['r']
+            if rv_ is r0_ or (rv_.has_const() and rv_.c == 1):
+                st_, det_ = 'ok', ''
+            elif rv_.k == 'int' and rv_.p is not None and (
+                    _dd(rv_.p) or any('many.' in repr(a__)
+                                      for a__ in rv_.p.atoms())):
+                st_, det_ = 'violation', \
+                    'the cap handed to the compression is %r: a rank found ' \
+                    'for an earlier mode, not the caller\'s cap' % (rv_.p,)
+            else:
+                st_, det_ = 'unknown', 'cap %r' % (rv_,)
+            rep.add('P-cap', 'svd.svd_incomplete', 'compression #%d at d=%d '
+                    'is capped by the caller\'s r (or 1 at the end)'
+                    % (k_, d_), st_, det_, line=fsv_.node.lineno,
+                    file=fsv_.module.path)
+    # the cap parameter itself is not overwritten inside the sweep by a value
+    # that does not derive from it (it is read again in the next mode)
+    import ast as _astc
+    capn = fsv_.params[5] if len(fsv_.params) > 5 else 'r'
+    for lp in [n_ for n_ in _astc.walk(fsv_.node)
+               if isinstance(n_, (_astc.For, _astc.While))]:
+        for st_n in _astc.walk(lp):
+            if isinstance(st_n, _astc.Assign) and any(
+                    isinstance(t_, _astc.Name) and t_.id == capn
+                    for t_ in st_n.targets):
+                uses = any(isinstance(x_, _astc.Name) and x_.id == capn
+                           for x_ in _astc.walk(st_n.value))
+                rep.add('P-cap', 'svd.svd_incomplete', 'the cap %s is not '
+                        'clobbered inside the sweep (line %d)'
+                        % (capn, st_n.lineno),
+                        'ok' if uses else 'violation',
+                        '' if uses else 'the rank cap %s is re-bound inside '
+                        'the loop over the modes to %s, a value that does '
+                        'not derive from it, and is read as the cap of the '
+                        'next mode' % (capn, _astc.unparse(st_n.value)),
+                        line=st_n.lineno, file=fsv_.module.path)
+    rep.floor('P-cap', 4, 'caps of the block compressions')
     rep.floor('S-ret', 2, 'svd_incomplete results')
     rep.floor('S-producer', 2, 'sample_tt layouts')
     rep.floor('S-consumer', 1, 'stride / width of the consumer')
